@@ -313,7 +313,12 @@ unsafe fn drop_cycle<T>(cycle: HashMap<Link<T>, usize>) {
         //
         // This object continues to be referenced outside the cycle in another
         // part of the graph.
-        ptr.is_dead()
+        //
+        // An allocation that logged a loopback link is listed under two keys,
+        // its `Forward` key and a `Loopback` key. Release it once, under the
+        // `Forward` key; the kind is tested first because the allocation
+        // behind a `Loopback` key may already have been released.
+        matches!(ptr.kind(), Kind::Forward) && ptr.is_dead()
     });
 
     for ptr in unreachable_cycle_participants {
